@@ -26,6 +26,25 @@ CLAIMED = {
         ref="DESIGN.md §5 C06"),
 }
 
+LIM_NOTE = COMMON_NOTE + ("Axioms: none for the theorems (closed under the global context); the rate function is a parameter of the theorems (any function), "
+    "the Flocq model of C18 is plugged in only for execution in the correspondence. HashMap trusted as a finite map; pre-1970 timestamps outside the model.")
+CLAIMED.update({
+    "C01": dict(
+        text="Machine-checked theorem (Properties/C01.v): for every key type, store, configuration, oracle stream and multi-key history with non-decreasing timestamps in which a key is "
+             "used with fixed limits in D, E*(admitted in [t1,t2] - B) <= t2 - t1 for every window. Proof: machine-arithmetic limiter model = per-key step in D (Machine.v), concrete stores "
+             "refine the abstract expiring map (C06), per-key projection (C05), step-for-step simulation by the ideal token bucket (Sim.v), window bound for the bucket from any state (Window.v). "
+             "The executable limiter model is compared with the real RateLimiter (outcome, entry count, store scheduling snapshot after every request) on every run.",
+        note=LIM_NOTE, technique="Coq proof (refinement + simulation by ideal token bucket + induction over histories) + differential correspondence", ref="DESIGN.md §5 C01"),
+    "C02": dict(
+        text="Machine-checked theorem (Properties/C02.v): under the C01 hypotheses the decisions for a key equal, at every step, those of the ideal token bucket (capacity B, one token per E ns, "
+             "exact integer arithmetic); fresh keys admit up to B; from every reachable key state a request <= B issued B*E after the last one is admitted (no starvation).",
+        note=LIM_NOTE, technique="Coq proof (bisimulation kstep ~ ideal bucket, lifted through store refinement and key projection) + differential correspondence", ref="DESIGN.md §5 C02"),
+    "C05": dict(
+        text="Machine-checked theorem (Properties/C05.v): the responses for key k are the per-key step folded over k's own (quantity, time) list - independent of the store type, configuration, "
+             "oracle stream, table growth/cleanup and of any traffic (valid or not, any limits) on other keys; frame lemma: a request never changes another key's abstract state.",
+        note=LIM_NOTE, technique="Coq proof (frame + projection over the abstract expiring map, via C06 refinement) + differential correspondence with solo-vs-interleaved oracle", ref="DESIGN.md §5 C05"),
+})
+
 PENDING_REASON = ("framework for this property is still being built in this round (DESIGN.md §8.2 order of work); "
                   "no check is claimed until its theorems and correspondence run")
 
